@@ -9,9 +9,12 @@ open Ptk.Py
 
 /-! ### what one assignment `working_index = j` (to a different index) does -/
 
-/-- the state after `self.working_index = j` for `j ≠ idx` -/
-def navTo (s : St) (j : Nat) : St :=
-  { s with idx := j, cur := 0, pref := none, vstate := .unknown, vpending := s.vpending || s.vwt }
+/-- the state after `k ≥ 1` assignments `self.working_index = …` to indices that each differ from
+    the previous one, the last of them being `j` (every assignment runs `_text_changed`, which
+    creates one validator task when `validate_while_typing` is on) -/
+def navTo (s : St) (j : Nat) (k : Nat := 1) : St :=
+  { s with idx := j, cur := 0, pref := none, yank := none, vstate := .unknown, verr := none,
+           vtasks := if s.vwt then s.vtasks + k else s.vtasks }
 
 theorem setWorkingIndex_ne (s : St) (j : Nat) (h : s.idx ≠ j) : setWorkingIndex s j = navTo s j := by
   unfold setWorkingIndex navTo textChanged setCursorPos
@@ -23,32 +26,41 @@ theorem setWorkingIndex_ne (s : St) (j : Nat) (h : s.idx ≠ j) : setWorkingInde
   · simp only [hc, if_false]
     simp
 
-theorem navTo_navTo (s : St) (j k : Nat) : navTo (navTo s j) k = navTo s k := by
-  simp [navTo]
+theorem navTo_navTo (s : St) (j k n : Nat) : navTo (navTo s j n) k = navTo s k (n + 1) := by
+  simp only [navTo]
+  by_cases h : s.vwt = true
+  · simp [h, Nat.add_assoc]
+  · simp [h]
 
-@[simp] theorem navTo_work (s : St) (j : Nat) : (navTo s j).work = s.work := rfl
-@[simp] theorem navTo_search (s : St) (j : Nat) : (navTo s j).search = s.search := rfl
-@[simp] theorem navTo_idx (s : St) (j : Nat) : (navTo s j).idx = j := rfl
-@[simp] theorem navTo_hist (s : St) (j : Nat) : (navTo s j).hist = s.hist := rfl
-@[simp] theorem navTo_storage (s : St) (j : Nat) : (navTo s j).storage = s.storage := rfl
-@[simp] theorem navTo_ehs (s : St) (j : Nat) : (navTo s j).ehs = s.ehs := rfl
+@[simp] theorem navTo_work (s : St) (j k : Nat) : (navTo s j k).work = s.work := rfl
+@[simp] theorem navTo_search (s : St) (j k : Nat) : (navTo s j k).search = s.search := rfl
+@[simp] theorem navTo_idx (s : St) (j k : Nat) : (navTo s j k).idx = j := rfl
+@[simp] theorem navTo_hist (s : St) (j k : Nat) : (navTo s j k).hist = s.hist := rfl
+@[simp] theorem navTo_storage (s : St) (j k : Nat) : (navTo s j k).storage = s.storage := rfl
+@[simp] theorem navTo_ehs (s : St) (j k : Nat) : (navTo s j k).ehs = s.ehs := rfl
+@[simp] theorem navTo_vstate (s : St) (j k : Nat) : (navTo s j k).vstate = .unknown := rfl
+@[simp] theorem navTo_verr (s : St) (j k : Nat) : (navTo s j k).verr = none := rfl
+@[simp] theorem navTo_vrun (s : St) (j k : Nat) : (navTo s j k).vrun = s.vrun := rfl
+@[simp] theorem navTo_vasync (s : St) (j k : Nat) : (navTo s j k).vasync = s.vasync := rfl
+@[simp] theorem navTo_text (s : St) (j k : Nat) : (navTo s j k).text = s.work.getD j [] := rfl
 
 theorem historyMatches_congr (s t : St) (hw : t.work = s.work) (hs : t.search = s.search) (i : Nat) :
     historyMatches t i = historyMatches s i := by
   simp [historyMatches, hw, hs]
 
-/-- the state reached after the loop has assigned `last` (or nothing) -/
-def atLast (s : St) : Option Nat → St
+/-- the state reached after the loop has made `k` assignments, the last one to `last` (or none) -/
+def atLast (s : St) (l : Option Nat) (k : Nat) : St :=
+  match l with
   | none => s
-  | some j => navTo s j
+  | some j => navTo s j k
 
-@[simp] theorem atLast_work (s : St) (l : Option Nat) : (atLast s l).work = s.work := by
+@[simp] theorem atLast_work (s : St) (l : Option Nat) (k : Nat) : (atLast s l k).work = s.work := by
   cases l <;> rfl
-@[simp] theorem atLast_search (s : St) (l : Option Nat) : (atLast s l).search = s.search := by
+@[simp] theorem atLast_search (s : St) (l : Option Nat) (k : Nat) : (atLast s l k).search = s.search := by
   cases l <;> rfl
-@[simp] theorem atLast_hist (s : St) (l : Option Nat) : (atLast s l).hist = s.hist := by
+@[simp] theorem atLast_hist (s : St) (l : Option Nat) (k : Nat) : (atLast s l k).hist = s.hist := by
   cases l <;> rfl
-@[simp] theorem atLast_storage (s : St) (l : Option Nat) : (atLast s l).storage = s.storage := by
+@[simp] theorem atLast_storage (s : St) (l : Option Nat) (k : Nat) : (atLast s l k).storage = s.storage := by
   cases l <;> rfl
 
 /-! ### the loops as index scans -/
@@ -69,80 +81,97 @@ def fwdScan (m : Nat → Bool) : Nat → Nat → Int → Option Nat → Option N
     let last' := if m i then some i else last
     if c' = 0 then last' else fwdScan m fuel (i + 1) c' last'
 
-theorem bwdGo_eq (s0 : St) : ∀ (n : Nat) (c : Int) (last : Option Nat),
-    (∀ j, last = some j → n ≤ j) → n ≤ s0.idx →
-    bwdGo (atLast s0 last) n c last.isSome =
-      (atLast s0 (bwdScan (historyMatches s0) n c last), (bwdScan (historyMatches s0) n c last).isSome) := by
+/-- number of assignments `history_backward`'s loop makes -/
+def bwdHits (m : Nat → Bool) : Nat → Int → Nat
+  | 0, _ => 0
+  | n + 1, c =>
+    let c' := if m n then c - 1 else c
+    let h := if m n then 1 else 0
+    if c' = 0 then h else h + bwdHits m n c'
+
+/-- number of assignments `history_forward`'s loop makes -/
+def fwdHits (m : Nat → Bool) : Nat → Nat → Int → Nat
+  | 0, _, _ => 0
+  | fuel + 1, i, c =>
+    let c' := if m i then c - 1 else c
+    let h := if m i then 1 else 0
+    if c' = 0 then h else h + fwdHits m fuel (i + 1) c'
+
+theorem bwdGo_eq (s0 : St) : ∀ (n : Nat) (c : Int) (last : Option Nat) (k : Nat),
+    (∀ j, last = some j → n ≤ j) → (last = none → k = 0) → n ≤ s0.idx →
+    bwdGo (atLast s0 last k) n c last.isSome =
+      (atLast s0 (bwdScan (historyMatches s0) n c last) (k + bwdHits (historyMatches s0) n c),
+       (bwdScan (historyMatches s0) n c last).isSome) := by
   intro n
   induction n with
-  | zero => intro c last _ _; simp [bwdGo, bwdScan]
+  | zero => intro c last k _ _ _; simp [bwdGo, bwdScan, bwdHits]
   | succ n ih =>
-    intro c last hl hn
-    have hm : historyMatches (atLast s0 last) n = historyMatches s0 n :=
+    intro c last k hl hk hn
+    have hm : historyMatches (atLast s0 last k) n = historyMatches s0 n :=
       historyMatches_congr s0 _ (by simp) (by simp) n
-    have hidx : (atLast s0 last).idx ≠ n := by
+    have hidx : (atLast s0 last k).idx ≠ n := by
       cases last with
       | none => simp [atLast]; omega
       | some j => have := hl j rfl; simp [atLast]; omega
-    unfold bwdGo bwdScan
+    unfold bwdGo bwdScan bwdHits
     simp only [hm]
     by_cases hit : historyMatches s0 n = true
     · simp only [hit, if_true]
-      have hs : setWorkingIndex (atLast s0 last) n = atLast s0 (some n) := by
+      have hs : setWorkingIndex (atLast s0 last k) n = atLast s0 (some n) (k + 1) := by
         rw [setWorkingIndex_ne _ _ hidx]
         cases last with
-        | none => rfl
+        | none => simp [atLast, hk rfl]
         | some j => simp [atLast, navTo_navTo]
       rw [hs]
       by_cases hc : c - 1 = 0
       · simp [hc]
       · simp only [hc, if_false]
-        have := ih (c - 1) (some n) (by intro j hj; cases hj; omega) (by omega)
-        simpa using this
+        have := ih (c - 1) (some n) (k + 1) (by intro j hj; cases hj; omega) (by simp) (by omega)
+        simpa [Nat.add_assoc] using this
     · have hit' : historyMatches s0 n = false := by simpa using hit
       simp only [hit', Bool.false_eq_true, if_false]
       by_cases hc : c = 0
       · simp [hc]
       · simp only [hc, if_false]
-        exact ih c last (by intro j hj; have := hl j hj; omega) (by omega)
+        simpa using ih c last k (by intro j hj; have := hl j hj; omega) hk (by omega)
 
-theorem fwdGo_eq (s0 : St) : ∀ (fuel i : Nat) (c : Int) (last : Option Nat),
-    (∀ j, last = some j → j < i) → s0.idx < i →
-    fwdGo (atLast s0 last) fuel i c last.isSome =
-      (atLast s0 (fwdScan (historyMatches s0) fuel i c last),
+theorem fwdGo_eq (s0 : St) : ∀ (fuel i : Nat) (c : Int) (last : Option Nat) (k : Nat),
+    (∀ j, last = some j → j < i) → (last = none → k = 0) → s0.idx < i →
+    fwdGo (atLast s0 last k) fuel i c last.isSome =
+      (atLast s0 (fwdScan (historyMatches s0) fuel i c last) (k + fwdHits (historyMatches s0) fuel i c),
        (fwdScan (historyMatches s0) fuel i c last).isSome) := by
   intro fuel
   induction fuel with
-  | zero => intro i c last _ _; simp [fwdGo, fwdScan]
+  | zero => intro i c last k _ _ _; simp [fwdGo, fwdScan, fwdHits]
   | succ fuel ih =>
-    intro i c last hl hn
-    have hm : historyMatches (atLast s0 last) i = historyMatches s0 i :=
+    intro i c last k hl hk hn
+    have hm : historyMatches (atLast s0 last k) i = historyMatches s0 i :=
       historyMatches_congr s0 _ (by simp) (by simp) i
-    have hidx : (atLast s0 last).idx ≠ i := by
+    have hidx : (atLast s0 last k).idx ≠ i := by
       cases last with
       | none => simp [atLast]; omega
       | some j => have := hl j rfl; simp [atLast]; omega
-    unfold fwdGo fwdScan
+    unfold fwdGo fwdScan fwdHits
     simp only [hm]
     by_cases hit : historyMatches s0 i = true
     · simp only [hit, if_true]
-      have hs : setWorkingIndex (atLast s0 last) i = atLast s0 (some i) := by
+      have hs : setWorkingIndex (atLast s0 last k) i = atLast s0 (some i) (k + 1) := by
         rw [setWorkingIndex_ne _ _ hidx]
         cases last with
-        | none => rfl
+        | none => simp [atLast, hk rfl]
         | some j => simp [atLast, navTo_navTo]
       rw [hs]
       by_cases hc : c - 1 = 0
       · simp [hc]
       · simp only [hc, if_false]
-        have := ih (i + 1) (c - 1) (some i) (by intro j hj; cases hj; omega) (by omega)
-        simpa using this
+        have := ih (i + 1) (c - 1) (some i) (k + 1) (by intro j hj; cases hj; omega) (by simp) (by omega)
+        simpa [Nat.add_assoc] using this
     · have hit' : historyMatches s0 i = false := by simpa using hit
       simp only [hit', Bool.false_eq_true, if_false]
       by_cases hc : c = 0
       · simp [hc]
       · simp only [hc, if_false]
-        exact ih (i + 1) c last (by intro j hj; have := hl j hj; omega) (by omega)
+        simpa using ih (i + 1) c last k (by intro j hj; have := hl j hj; omega) hk (by omega)
 
 /-! ### facts about the scans -/
 
@@ -394,11 +423,14 @@ theorem historyBackward_eq (s : St) (c : Int) :
     historyBackward s c =
       match bwdScan (historyMatches (setHistorySearch s)) s.idx c none with
       | none => setHistorySearch s
-      | some j => setCursorPos (navTo (setHistorySearch s) j) (navTo (setHistorySearch s) j).text.length := by
+      | some j =>
+        setCursorPos (navTo (setHistorySearch s) j (bwdHits (historyMatches (setHistorySearch s)) s.idx c))
+          (navTo (setHistorySearch s) j (bwdHits (historyMatches (setHistorySearch s)) s.idx c)).text.length := by
   have h : bwdGo (setHistorySearch s) s.idx c false =
-      (atLast (setHistorySearch s) (bwdScan (historyMatches (setHistorySearch s)) s.idx c none),
+      (atLast (setHistorySearch s) (bwdScan (historyMatches (setHistorySearch s)) s.idx c none)
+        (0 + bwdHits (historyMatches (setHistorySearch s)) s.idx c),
        (bwdScan (historyMatches (setHistorySearch s)) s.idx c none).isSome) :=
-    bwdGo_eq (setHistorySearch s) s.idx c none (by simp) (by simp)
+    bwdGo_eq (setHistorySearch s) s.idx c none 0 (by simp) (by simp) (by simp)
   unfold historyBackward
   simp only [setHistorySearch_idx]
   rw [h]
@@ -409,13 +441,15 @@ theorem historyForward_eq (s : St) (c : Int) :
       match fwdScan (historyMatches (setHistorySearch s)) (s.work.length - (s.idx + 1)) (s.idx + 1) c none with
       | none => setHistorySearch s
       | some j =>
-        let s2 := setCursorPos (navTo (setHistorySearch s) j) 0
+        let s2 := setCursorPos (navTo (setHistorySearch s) j
+          (fwdHits (historyMatches (setHistorySearch s)) (s.work.length - (s.idx + 1)) (s.idx + 1) c)) 0
         setCursorPos s2 ((s2.cur : Int) + (lineAfter s2.text s2.cur).length) := by
   have h : fwdGo (setHistorySearch s) (s.work.length - (s.idx + 1)) (s.idx + 1) c false =
       (atLast (setHistorySearch s)
-        (fwdScan (historyMatches (setHistorySearch s)) (s.work.length - (s.idx + 1)) (s.idx + 1) c none),
+        (fwdScan (historyMatches (setHistorySearch s)) (s.work.length - (s.idx + 1)) (s.idx + 1) c none)
+        (0 + fwdHits (historyMatches (setHistorySearch s)) (s.work.length - (s.idx + 1)) (s.idx + 1) c),
        (fwdScan (historyMatches (setHistorySearch s)) (s.work.length - (s.idx + 1)) (s.idx + 1) c none).isSome) :=
-    fwdGo_eq (setHistorySearch s) _ (s.idx + 1) c none (by simp) (by simp)
+    fwdGo_eq (setHistorySearch s) _ (s.idx + 1) c none 0 (by simp) (by simp) (by simp)
   unfold historyForward
   simp only [setHistorySearch_idx, setHistorySearch_work]
   rw [h]
@@ -426,13 +460,13 @@ theorem historyForward_eq (s : St) (c : Int) :
     state and the preferred column: the working copies, the history and the loader are the same -/
 def Frame (s t : St) : Prop :=
   t.work = s.work ∧ t.hist = s.hist ∧ t.storage = s.storage ∧ t.hloaded = s.hloaded ∧
-  t.pending = s.pending ∧ t.loading = s.loading ∧ t.vwt = s.vwt
+  t.pending = s.pending ∧ t.loading = s.loading
 
 theorem Frame.refl (s : St) : Frame s s := by simp [Frame]
 theorem Frame.trans {a b c : St} (h1 : Frame a b) (h2 : Frame b c) : Frame a c := by
-  obtain ⟨a1, a2, a3, a4, a5, a6, a7⟩ := h1
-  obtain ⟨b1, b2, b3, b4, b5, b6, b7⟩ := h2
-  exact ⟨b1.trans a1, b2.trans a2, b3.trans a3, b4.trans a4, b5.trans a5, b6.trans a6, b7.trans a7⟩
+  obtain ⟨a1, a2, a3, a4, a5, a6⟩ := h1
+  obtain ⟨b1, b2, b3, b4, b5, b6⟩ := h2
+  exact ⟨b1.trans a1, b2.trans a2, b3.trans a3, b4.trans a4, b5.trans a5, b6.trans a6⟩
 
 theorem setCursorPos_frame (s : St) (v : Int) : Frame s (setCursorPos s v) := by
   simp only [setCursorPos]; split
@@ -440,7 +474,7 @@ theorem setCursorPos_frame (s : St) (v : Int) : Frame s (setCursorPos s v) := by
   · simp [Frame]
 theorem setHistorySearch_frame (s : St) : Frame s (setHistorySearch s) := by
   simp only [setHistorySearch]; repeat' (first | exact Frame.refl s | (simp [Frame]; done) | split)
-theorem navTo_frame (s : St) (j : Nat) : Frame s (navTo s j) := by simp [Frame, navTo]
+theorem navTo_frame (s : St) (j : Nat) (k : Nat := 1) : Frame s (navTo s j k) := by simp [Frame, navTo]
 theorem textChanged_frame (s : St) : Frame s (textChanged s) := by simp [Frame, textChanged]
 theorem setWorkingIndex_frame (s : St) (j : Nat) : Frame s (setWorkingIndex s j) := by
   by_cases h : s.idx = j
@@ -451,19 +485,28 @@ theorem historyBackward_frame (s : St) (c : Int) : Frame s (historyBackward s c)
   rw [historyBackward_eq]
   split
   · exact setHistorySearch_frame s
-  · exact (setHistorySearch_frame s).trans ((navTo_frame _ _).trans (setCursorPos_frame _ _))
+  · exact (setHistorySearch_frame s).trans ((navTo_frame _ _ _).trans (setCursorPos_frame _ _))
 
 theorem historyForward_frame (s : St) (c : Int) : Frame s (historyForward s c) := by
   rw [historyForward_eq]
   split
   · exact setHistorySearch_frame s
-  · exact (setHistorySearch_frame s).trans ((navTo_frame _ _).trans
+  · exact (setHistorySearch_frame s).trans ((navTo_frame _ _ _).trans
       ((setCursorPos_frame _ _).trans (setCursorPos_frame _ _)))
 
 theorem goToHistory_frame (s : St) (i : Nat) : Frame s (goToHistory s i) := by
   simp only [goToHistory]; split
   · exact (setWorkingIndex_frame s i).trans (setCursorPos_frame _ _)
   · exact Frame.refl s
+
+theorem goToHistoryFixed_frame (s : St) (i : Nat) : Frame s (goToHistoryFixed s i) := by
+  simp only [goToHistoryFixed]; split
+  · have := goToHistory_frame s i
+    simpa [Frame] using this
+  · exact Frame.refl s
+
+theorem endOfHistoryFixed_frame (s : St) : Frame s (endOfHistoryFixed s) :=
+  (historyForward_frame s _).trans (goToHistoryFixed_frame _ _)
 
 theorem endOfHistory_frame (s : St) : Frame s (endOfHistory s) :=
   (historyForward_frame s _).trans (goToHistory_frame _ _)
@@ -550,8 +593,107 @@ theorem validate_frame (v : Validator) (s : St) (b : Bool) : Frame s (validate v
       · simp [Frame]
     · simp [Frame]
 
-theorem asyncValidate_frame (v : Validator) (s : St) : Frame s (asyncValidate v s) := by
-  simp only [asyncValidate]
-  repeat' (first | exact Frame.refl s | (simp [Frame]; done) | split)
+theorem setVerdict_frame (s : St) (r : Option Int) : Frame s (setVerdict s r) := by
+  cases r <;> simp [Frame, setVerdict]
+
+theorem vLoopTop_frame (v : Validator) (s : St) : Frame s (vLoopTop v s) := by
+  simp only [vLoopTop]
+  split
+  · simp [Frame]
+  · split
+    · simp [Frame]
+    · have := setVerdict_frame s (v s.text)
+      simpa [Frame] using this
+
+theorem vStart_frame (v : Validator) (s : St) : Frame s (vStart v s) := by
+  simp only [vStart]
+  split
+  · exact Frame.refl s
+  · split
+    · simp [Frame]
+    · exact Frame.trans (b := { s with vtasks := s.vtasks - 1 }) (by simp [Frame]) (vLoopTop_frame v _)
+
+theorem vFinish_frame (v : Validator) (s : St) : Frame s (vFinish v s) := by
+  simp only [vFinish]
+  split
+  · exact Frame.refl s
+  · split
+    · have := setVerdict_frame s (v ‹Text›)
+      simpa [Frame] using this
+    · exact vLoopTop_frame v s
+
+theorem drainGo_frame (v : Validator) : ∀ (n : Nat) (s : St), Frame s (drainGo v n s) := by
+  intro n
+  induction n with
+  | zero => intro s; exact Frame.refl s
+  | succ n ih => intro s; exact (vStart_frame v s).trans (ih _)
+
+theorem asyncValidate_frame (v : Validator) (s : St) : Frame s (asyncValidate v s) :=
+  drainGo_frame v _ s
+
+/-! ### validator progress (`vStart`, `vFinish`, a loop turn) touches only the validation fields -/
+
+/-- validator progress touches only the four validation fields -/
+def ValOnly (s t : St) : Prop :=
+  t = { s with vstate := t.vstate, verr := t.verr, vtasks := t.vtasks, vrun := t.vrun }
+
+theorem ValOnly.refl (s : St) : ValOnly s s := by cases s; rfl
+theorem ValOnly.trans {a b c : St} (h1 : ValOnly a b) (h2 : ValOnly b c) : ValOnly a c := by
+  unfold ValOnly at *; rw [h2, h1]
+theorem ValOnly.text {s t : St} (h : ValOnly s t) : t.text = s.text := by
+  unfold ValOnly at h; rw [h]; rfl
+theorem ValOnly.fields {s t : St} (h : ValOnly s t) :
+    t.work = s.work ∧ t.idx = s.idx ∧ t.cur = s.cur ∧ t.search = s.search ∧ t.hist = s.hist ∧
+    t.storage = s.storage ∧ t.hloaded = s.hloaded ∧ t.pending = s.pending ∧ t.loading = s.loading ∧
+    t.ehs = s.ehs ∧ t.vwt = s.vwt ∧ t.vasync = s.vasync ∧ t.pref = s.pref := by
+  unfold ValOnly at h; rw [h]; simp
+
+theorem setVerdict_valOnly (s : St) (r : Option Int) : ValOnly s (setVerdict s r) := by
+  cases r <;> simp [ValOnly, setVerdict]
+
+theorem vLoopTop_valOnly (v : Validator) (s : St) : ValOnly s (vLoopTop v s) := by
+  simp only [vLoopTop]
+  split
+  · simp [ValOnly]
+  · split
+    · simp [ValOnly]
+    · cases v s.text <;> simp [ValOnly, setVerdict]
+
+theorem vStart_valOnly (v : Validator) (s : St) : ValOnly s (vStart v s) := by
+  simp only [vStart]
+  split
+  · exact ValOnly.refl s
+  · split
+    · simp [ValOnly]
+    · exact ValOnly.trans (b := { s with vtasks := s.vtasks - 1 }) (by simp [ValOnly]) (vLoopTop_valOnly v _)
+
+theorem vFinish_valOnly (v : Validator) (s : St) : ValOnly s (vFinish v s) := by
+  simp only [vFinish]
+  split
+  · exact ValOnly.refl s
+  · split
+    · exact ValOnly.trans (b := setVerdict s (v ‹Text›)) (setVerdict_valOnly _ _) (by simp [ValOnly])
+    · exact vLoopTop_valOnly v s
+
+theorem drainGo_valOnly (v : Validator) : ∀ (n : Nat) (s : St), ValOnly s (drainGo v n s) := by
+  intro n
+  induction n with
+  | zero => intro s; exact ValOnly.refl s
+  | succ n ih => intro s; exact (vStart_valOnly v s).trans (ih _)
+
+theorem asyncValidate_valOnly (v : Validator) (s : St) : ValOnly s (asyncValidate v s) :=
+  drainGo_valOnly v _ s
+
+theorem appExit_valOnly (s : St) : ValOnly s (appExit s) := by simp [ValOnly, appExit]
+
+theorem afterKey_valOnly (v : Validator) (s : St) (o : Out) : ValOnly s (afterKey v s o) := by
+  cases o <;> simp only [afterKey]
+  all_goals first
+    | exact asyncValidate_valOnly v s
+    | exact (asyncValidate_valOnly v s).trans (appExit_valOnly _)
+
+theorem frame_of_valOnly {s t : St} (h : ValOnly s t) : Frame s t := by
+  obtain ⟨h1, _, _, _, h5, h6, h7, h8, h9, _⟩ := h.fields
+  exact ⟨h1, h5, h6, h7, h8, h9⟩
 
 end Ptk.C14
